@@ -298,6 +298,12 @@ def h_tid_monotonic(c0: int, c1: int, c2: int, c3: int, c4: int, storage: str, r
             last = int.from_bytes(s.lastTransaction(), 'big')
             s.pack(env.clock.time(), referencesf)
             check(int.from_bytes(s.lastTransaction(), 'big') == last, 'lastTransaction changed by a pack')
+        elif storage == 'demo':
+            # a demo storage over a base that holds the history: new ids have to come after the base's, too
+            import ZODB.DemoStorage
+            env, base_, h = T.build_mapping('T1')
+            last = int.from_bytes(h.m.last_tid(), 'big')
+            s = ZODB.DemoStorage.DemoStorage(base=base_)
         else:
             env, s, h = T.build_mapping('T1')
             last = int.from_bytes(h.m.last_tid(), 'big')
@@ -331,7 +337,10 @@ def h_tid_monotonic(c0: int, c1: int, c2: int, c3: int, c4: int, storage: str, r
         for i in range(4):
             t = T.meta()
             s.tpc_begin(t)
-            cur = s._ts._raw if hasattr(s, '_ts') and isinstance(s._ts, SymTimeStamp) else s._tid.n
+            if storage == 'demo':
+                cur = s.changes._tid.n
+            else:
+                cur = s._ts._raw if hasattr(s, '_ts') and isinstance(s._ts, SymTimeStamp) else s._tid.n
             check(cur > prev, 'transaction id does not increase', i, prev, cur)
             if storage == 'file':
                 # BaseStorage keeps the chosen timestamp as the new floor (as a commit would)
@@ -444,8 +453,8 @@ HARNESSES = [
             symbolic='the clock reading at reopen and 4 consecutive clock readings (free 63-bit integers)',
             bounds='4 consecutive tpc_begin after history T1, with and without close+reopen before', oracle='strict increase, above the last committed tid',
             code=['BaseStorage.tpc_begin', 'MappingStorage.tpc_begin', 'FileStorage.__init__ (tid floor)', 'utils.newTid'],
-            quick=dict(timeout=80, shards=[dict(storage='file', reopen=False), dict(storage='file', reopen=True), dict(storage='mapping', reopen=False), dict(storage='mapping_packed', reopen=False)]),
-            thorough=dict(timeout=300, shards=[dict(storage='file', reopen=False), dict(storage='file', reopen=True), dict(storage='mapping', reopen=False), dict(storage='mapping_packed', reopen=False)])),
+            quick=dict(timeout=80, shards=[dict(storage='file', reopen=False), dict(storage='file', reopen=True), dict(storage='mapping', reopen=False), dict(storage='mapping_packed', reopen=False), dict(storage='demo', reopen=False)]),
+            thorough=dict(timeout=300, shards=[dict(storage='file', reopen=False), dict(storage='file', reopen=True), dict(storage='mapping', reopen=False), dict(storage='mapping_packed', reopen=False), dict(storage='demo', reopen=False)])),
 ]
 
 MANIFEST = dict(
